@@ -488,6 +488,14 @@ func c06Name(id string) string {
 // ---------------------------------------------------------------------------
 // One execution.
 
+// c06Stats summarises one execution for the evidence counters.
+type c06Stats struct {
+	conns, cont, full, refusedPartial, cachedSnap, fullSnap, starts, exits int
+}
+
+var c06Last c06Stats
+var c06LastObs string
+
 type c06Item struct {
 	Seq  int
 	Snap bool // executed outside MULTI/EXEC: snapshot replay
@@ -635,6 +643,11 @@ func (rec *c06Record) auditCache() {
 		}
 		w.WgWait()
 		if x.err != nil {
+			if !stalled && x.n > 0 && wantAof {
+				// an explicit read error after some bytes: the tool would deliver those
+				// bytes, fail, back off and come back with a new reader right behind them
+				return buf[:x.n], rd, ""
+			}
 			return nil, rd, fmt.Sprintf("read:cache reports [%d,%d] but reading %d bytes at %d fails: %v", l, r, n, off, x.err)
 		}
 		return buf, rd, ""
@@ -672,10 +685,21 @@ func (rec *c06Record) auditCache() {
 			rec.auditEr = fmt.Sprintf("range:cache starts at %d, before the stream's first offset %d", aofFrom, cur.Base)
 			return
 		}
-		buf, _, msg := read(aofFrom, r-aofFrom, true)
-		if msg != "" {
-			rec.auditEr = msg
-			return
+		var buf []byte
+		retries := 0
+		for int64(len(buf)) < r-aofFrom {
+			part, _, msg := read(aofFrom+int64(len(buf)), r-aofFrom-int64(len(buf)), true)
+			if msg != "" {
+				rec.auditEr = msg
+				return
+			}
+			buf = append(buf, part...)
+			if int64(len(buf)) < r-aofFrom {
+				retries++
+			}
+		}
+		if retries > 0 {
+			fin["cache_read_retries"] = retries
 		}
 		want := cur.Bytes(aofFrom, r)
 		if !bytes.Equal(buf, want) {
@@ -915,6 +939,26 @@ func (rec *c06Record) judge() mc.Result {
 		}
 		obsParts = append(obsParts, fmt.Sprintf("%s|%s|%s|%d|%d|snap=%d|from=%d|n=%d", shape, c06NameArgs(p.Raw), c06Name(p.ReplyID), p.From, p.HistCmds, len(snap), start, len(stream)))
 	}
+	c06Last = c06Stats{starts: e.boots, exits: len(e.exits)}
+	for _, p := range rec.psyncs {
+		c06Last.conns++
+		if p.Full {
+			c06Last.full++
+			if p.ReqOff != -1 {
+				c06Last.refusedPartial++
+			}
+		} else {
+			c06Last.cont++
+		}
+	}
+	for _, part := range obsParts {
+		if strings.Contains(part, ":cont|") && !strings.Contains(part, "|snap=0|") {
+			c06Last.cachedSnap++
+		}
+		if strings.Contains(part, ":full|") && !strings.Contains(part, "|snap=0|") {
+			c06Last.fullSnap++
+		}
+	}
 	cur := rec.cur
 	fin := map[string]interface{}{"target_position": applied.String(), "source": fmt.Sprintf("h%d@%d", cur.Tag, cur.NumCmds())}
 	// liveness within the horizon: the source's writes reached the target
@@ -940,7 +984,10 @@ func (rec *c06Record) judge() mc.Result {
 		fin["audit"] = rec.auditEr
 		return viol("the cache's reported content does not match the source's current history", "cache-mismatch:"+kind, fin)
 	}
-	obsParts = append(obsParts, fmt.Sprintf("final|%v|%v|%v", rec.final["cache_left"], rec.final["cache_right"], rec.final["cache_rdb_left"]), fmt.Sprintf("exits=%d", len(e.exits)))
+	// (whether the disk index still lists the snapshot file at the end depends on a race
+	// between the writer's rename and the directory re-scan of the next connection: not hashed)
+	obsParts = append(obsParts, fmt.Sprintf("final|%v|%v", rec.final["cache_left"], rec.final["cache_right"]), fmt.Sprintf("exits=%d", len(e.exits)))
+	c06LastObs = strings.Join(obsParts, " ; ")
 	return mc.OK(mc.Hash(obsParts...), len(rec.psyncs) > 0 && len(rec.items) > 0, e.events)
 }
 
@@ -1075,27 +1122,29 @@ func c06Sequences(alpha []string, depth int) [][]string {
 
 func c06Histories(tier string) []c06Scenario {
 	triples := c06Triples(tier)
-	alpha := []string{"app", "drop", "fo", "foe", "trim", "rs"}
-	depthAll, depthSeed := 1, 2
+	base := []string{"app", "drop", "fo", "foe", "trim", "rs"}
+	wide := []string{"app", "drop", "rst", "fo", "foe", "trim", "rs", "new"}
+	// event sequences, by length, for ordinary triples and for seed triples
+	var plain, seed [][]string
 	if tier == "thorough" {
-		alpha = []string{"app", "drop", "rst", "fo", "foe", "trim", "rs", "new"}
-		depthAll, depthSeed = 1, 3
+		plain = c06Sequences(wide, 1)
+		seed = c06Sequences(wide, 2)
+		for _, sq := range c06Sequences(base, 3) {
+			if len(sq) == 3 {
+				seed = append(seed, sq)
+			}
+		}
+	} else {
+		plain = c06Sequences(base, 1)
+		seed = c06Sequences(base, 2)
 	}
 	var out []c06Scenario
 	// breadth-first: all histories of length d before any of length d+1
-	maxd := depthSeed
-	if depthAll > maxd {
-		maxd = depthAll
-	}
-	seqs := c06Sequences(alpha, maxd)
-	for d := 0; d <= maxd; d++ {
+	for d := 0; d <= 3; d++ {
 		for _, tr := range triples {
-			lim := depthAll
+			seqs := plain
 			if c06Seed(tr) {
-				lim = depthSeed
-			}
-			if d > lim {
-				continue
+				seqs = seed
 			}
 			for _, sq := range seqs {
 				if len(sq) != d {
@@ -1131,6 +1180,16 @@ func runC06(t *testing.T, rep *mc.Reporter) {
 		return
 	}
 	all := c06Histories(tier)
+	if shard == 0 {
+		seeds := 0
+		trs := c06Triples(tier)
+		for _, tr := range trs {
+			if c06Seed(tr) {
+				seeds++
+			}
+		}
+		rep.Note(fmt.Sprintf("%d histories enumerated in tier %s (%d initial triples, %d of them seed triples with the longer event sequences)", len(all), tier, len(trs), seeds))
+	}
 	done := 0
 	seen := map[string]int{}
 	for idx, scn := range all {
@@ -1157,6 +1216,20 @@ func runC06(t *testing.T, rep *mc.Reporter) {
 			}
 		}
 		rep.Exec(scn, nil, res)
+		if os.Getenv("VERIF_C06_DUMP") == "obs" {
+			fmt.Fprintf(os.Stderr, "OBS %s %x %s\n", scn, res.Obs, c06LastObs)
+		}
+		if res.Verdict == "ok" {
+			st := c06Last
+			rep.Count("connections", int64(st.conns))
+			rep.Count("psync_continue_granted", int64(st.cont))
+			rep.Count("psync_fullresync", int64(st.full))
+			rep.Count("psync_partial_refused", int64(st.refusedPartial))
+			rep.Count("cached_snapshot_replays", int64(st.cachedSnap))
+			rep.Count("served_snapshot_replays", int64(st.fullSnap))
+			rep.Count("tool_starts", int64(st.starts))
+			rep.Count("run_loop_exits", int64(st.exits))
+		}
 		rep.Count("states", 1)
 		rep.Count("transitions", int64(len(scn.Events)+2))
 		done++
